@@ -227,5 +227,19 @@ def run(ctx, tier):
                        'extraction regex matches every command text the hooks can pass (a non-match splices the whole command in)', floor=1)
     from .rules_c05 import regex_rule
     regex_rule(ctx, 'C07.R4')
+    ctx.rule('C07.R5', 'the parameter text spliced into a generated G10 / G11 is the parameter text of one command of the file: '
+                       'RetractionState.originalCommand is assigned in the constructor only, never extended or rewritten (two '
+                       'commands\' parameters glued together repeat letters)', floor=1)
+    from . import census
+    stores = census.attr_stores(ctx.model, 'originalCommand')
+    if not stores:
+        raise AnalysisError('anchor vanished: no assignment of originalCommand')
+    for (q, val, line, mod, aug) in stores:
+        ctx.instance('C07.R5', (q, line))
+        if q != 'RetractionState.__init__' or aug:
+            ctx.report('C07.R5', q, 'originalCommand %s outside the constructor' % ('extended' if aug else 'assigned'),
+                       'the remembered command text is changed after the record was created; _addCommands splices its parameter '
+                       'text into the generated G10 / G11, which then no longer is one code followed by distinct letters',
+                       line=line)
     ctx.assume('values are finite (inf/nan need value ranges and are not decided)')
     ctx.assume('the parameter text re-used for firmware retractions comes from the incoming command (already valid G-code)')
